@@ -58,6 +58,12 @@ type (
 	}
 	// ROPtr is a read-only computed location.
 	ROPtr struct{ V Value }
+	// TablePtr is an element of the abstracted multiplication tables: loads
+	// return the contract value, stores (table construction) must store it.
+	TablePtr struct {
+		V     *term.T
+		Label string
+	}
 	// TableRef stands for &mulTable[c] / &mulTable64[c] and their fields.
 	TableRef struct {
 		Kind  string // "mulTable" | "mulTable64"
